@@ -64,11 +64,11 @@ func init() {
 			}
 			names, hs := asm.PayloadHashes(p)
 			fp = append(fp, hs...)
-			for _, r := range s.Driver.State.Log {
-				fp = append(fp, uint64(r.Op), uint64(r.Data), r.Time)
+			for _, r := range s.Logs() {
+				fp = append(fp, uint64(int64(r.Op)+2000), uint64(r.Data), r.Time)
 			}
 			json.NewEncoder(os.Stdout).Encode(map[string]any{"fp": fp, "entities": names, "events": len(s.Trace.Hashes),
-				"done": s.Driver.Done()})
+				"done": s.Done()})
 			s.Close()
 		}
 		os.Exit(0)
